@@ -145,7 +145,9 @@ def run(f, fixture, rep, cfg, tier):
     dn = [d for d, _c in by_tag.get("RPMTAG_DIRNAMES", [])]
     rep.check(dn == [ID + "StringArray{std::iter::Iterator::collect(self.directories)}"], "R2", "file|RPMTAG_DIRNAMES", "DIRNAMES <- the directory set in order", "DIRNAMES is %s" % dn, pd.span)
     di = [d for d, _c in by_tag.get("RPMTAG_DIRINDEXES", [])]
-    rep.check(len(di) == 1 and "std::iter::Iterator::position(std::collections::BTreeSet::<T, A>::iter(self.directories)" in di[0], "R2", "file|RPMTAG_DIRINDEXES",
+    di_ok = len(di) == 1 and ("std::iter::Iterator::position(std::collections::BTreeSet::<T, A>::iter(self.directories)" in di[0] or
+                              (re.search(r"(BTreeMap|HashMap)::<K, V(, [AS])?>::get\(", di[0]) is not None and "std::iter::Iterator::enumerate(" in di[0] and "self.directories" in di[0] and ".dir" in di[0]))
+    rep.check(di_ok, "R2", "file|RPMTAG_DIRINDEXES",
               "DIRINDEXES <- position of the file's directory in the same set", "DIRINDEXES is %s" % [x[:200] for x in di], pd.span)
     for cb in f.closures_of(pd):
         tcb = TermBuilder(cb)
